@@ -196,6 +196,43 @@ register('C05',
          'DESIGN.md 5/C05')
 
 
+register('C01',
+         'FactorsSound is an invariant of the verdict model (Checks.tla: evidence only when weak; Monotone: a recorded factor never '
+         'disappears) checked by TLC over all call histories. C01Grid.tla generates with TLC every modulus class (healthy, small, '
+         '64/65-bit, odd length, prime, square, even, 2^k, three primes, every documented weak family) x (RSA check, constructor '
+         'parameter: Fermat bound 0/1/10^5, pattern lists default/[1]/[300]/[], continued-fraction bounds, Pollard bounds) plus '
+         'aggregate contexts (shared, nested, duplicate, several partners, N-1 with gcd bounds 1/2^64/2^128) and every public '
+         'factoring helper. Each cell is replayed on real protobufs / function calls; ChecksTrace.tla checks on every record: each '
+         'recorded value divides n (or n-1), one is proper unless n divides another modulus of the batch, evidence implies weak, '
+         'helpers return only divisors whose product is n.',
+         'Trusted: TLC, own parser of attached_info + one division per factor (pv.checks.project). Known finding: CheckGCD records '
+         '{n, 1} when a modulus shares each prime with a different partner.',
+         'TLA+ invariant (Checks.tla/ChecksTrace.tla FactorsSound) + TLC-generated class x check x parameter grid replayed + TLC trace validation',
+         'DESIGN.md 5/C01')
+register('C02',
+         'Soundness of the three discrete-log searches is checked on whole small groups: TLC recomputes from the definitional group '
+         'law that every returned logarithm satisfies dl*G = P and every recorded relation key - Q = k*G holds, under call histories '
+         'and for points that are not small logarithms (EcTrace.tla; cache model Bsgs.tla). On named curves TLC-simulated and '
+         'directed batches with wrong-guess pressure (healthy signatures, bias below the margin, strongly biased nonces attributed '
+         'to the negated issuer point, two curves and several issuers in one batch, structured and close private keys) go through '
+         'every nonce / LCG / U2F / EC check; ChecksTrace.tla requires every recorded DISCRETE_LOG(_DIFF) to be true and every '
+         'positive nonce verdict to come with a verifiable private key.',
+         'Trusted: TLC, refec.py reference multiplication, regex of the relation string. Keys that are not valid points are outside the claim.',
+         'TLA+ group-law spec (EcGroup.tla) as oracle on small curves + verdict invariants (ChecksTrace.tla DlogSound) on TLC-generated batches + TLC trace validation',
+         'DESIGN.md 5/C02')
+register('C07',
+         'HealthyNeverAccused and UntouchedOutsideBatch are checked by TLC on the verdict model over all histories. TLC-simulated '
+         'batches (1..6 slots, two entry-point calls each) of healthy RSA keys (2048/3072/4096), EC keys on all eight strong curves '
+         'and uniformly-nonced signatures, alone and mixed with weak neighbours (Fermat-close, shared prime, small, weak private '
+         'key, off-curve, biased nonces, invalid issuer), are replayed through the all-checks entry points; ChecksTrace.tla requires '
+         'every entry of a healthy artifact to be negative, the entry point to return False on all-healthy batches, and weak '
+         'neighbours to keep their own verdicts.',
+         'Trusted: TLC, pv.gen (healthy = independent uniform primes / keys / nonces). Population size is what bounds the '
+         'false-positive rate that can be seen: quick ~40 healthy artifacts, thorough ~2000.',
+         'TLA+ invariant (Checks.tla HealthyNeverAccused) + TLC-simulated healthy/mixed batches through the entry points + TLC trace validation',
+         'DESIGN.md 5/C07')
+
+
 def main():
   props = [json.loads(l)['id'] for l in open(os.path.join(HOME, 'properties.jsonl'))]
   checks = []
